@@ -18,6 +18,21 @@ import (
 type ringCfg struct {
 	Tenants []string `json:"tenants"`
 	Type    string   `json:"type"` // "exact" | "glob" | "" | other
+	// Nodes: endpoint name suffixes of this hashring, in configuration order
+	// (arbitrary, not sorted); empty = a single endpoint. Algo: "" (hashmod) | "ketama".
+	Nodes []string `json:"nodes,omitempty"`
+	Algo  string   `json:"algo,omitempty"`
+}
+
+func ringAddrs(i int, r ringCfg) []string {
+	if len(r.Nodes) == 0 {
+		return []string{fmt.Sprintf("ring-%d:10901", i)}
+	}
+	var out []string
+	for _, n := range r.Nodes {
+		out = append(out, fmt.Sprintf("ring-%d-%s:10901", i, n))
+	}
+	return out
 }
 
 type input struct {
@@ -50,11 +65,16 @@ func facts(repo string, w io.Writer) error {
 func build(in input) (receive.Hashring, error) {
 	var cfg []receive.HashringConfig
 	for i, r := range in.Rings {
+		var eps []receive.Endpoint
+		for _, a := range ringAddrs(i, r) {
+			eps = append(eps, receive.Endpoint{Address: a})
+		}
 		cfg = append(cfg, receive.HashringConfig{
 			Hashring:          fmt.Sprintf("ring-%d", i),
 			Tenants:           r.Tenants,
 			TenantMatcherType: receive.VerifC27Matcher(r.Type),
-			Endpoints:         []receive.Endpoint{{Address: fmt.Sprintf("ring-%d:10901", i)}},
+			Endpoints:         eps,
+			Algorithm:         receive.HashringAlgorithm(r.Algo),
 		})
 	}
 	return receive.NewMultiHashring(receive.AlgorithmHashmod, 1, cfg, nil)
@@ -83,8 +103,10 @@ func run(raw json.RawMessage) (common.Case, error) {
 		in.Fresh = 1
 	}
 	idx := map[string]int{}
-	for i := range in.Rings {
-		idx[fmt.Sprintf("ring-%d:10901", i)] = i
+	for i, r := range in.Rings {
+		for _, a := range ringAddrs(i, r) {
+			idx[a] = i
+		}
 	}
 	strID := map[string]int64{}
 	sid := func(s string) int64 {
@@ -216,6 +238,11 @@ func gen(r *rand.Rand, tier string, n int) []any {
 			default:
 				rc.Type = "regex"
 				rc.Tenants = []string{common.Pick(r, tenants...)}
+			}
+			if r.Intn(3) == 0 { // several endpoints, in arbitrary (unsorted) order
+				rc.Nodes = []string{"n2", "n10", "n1"}[:int(common.Between(r, 2, 3))]
+				r.Shuffle(len(rc.Nodes), func(a, b int) { rc.Nodes[a], rc.Nodes[b] = rc.Nodes[b], rc.Nodes[a] })
+				rc.Algo = common.Pick(r, "", "ketama")
 			}
 			in.Rings = append(in.Rings, rc)
 		}
